@@ -46,6 +46,9 @@ CLAIMED = {
  "C09": ("Contracts on one update step: the deletion step of retract/1 removes at most one clause and exactly the clause whose stored term is the one it unified with (found by identity at deletion time; no index can leave the clause list), assertz/asserta's merge functions put the new clauses after/before the existing ones with every clause keeping its term and code in order, assertMerge merges exactly the compiled clauses and changes no procedure when it fails, and the alternatives of a call hold their own copy of each clause (census on the captured variable) - the mechanism of the logical update view.",
          "Fragment: that every history of updates and open calls equals the sequential reference model is a statement about answer sequences (C01's obstacle) and is not decided; retractall/abolish are not under contract. Trusted: compile, piArg, id, Env.Unify; assumed: assertMerge's callbacks keep the procedure table.",
          "contract-based deductive verification: WP over go/ssa with slice-of-struct heap model, closures as functions, structural census", "DESIGN.md 5 C09"),
+ "C20": ("Contracts on the loader: text.flush takes a run of clauses of one predicate in source order after the earlier clauses of that predicate, empties the buffer, and reports an error (changing neither the buffer nor the stored clauses) exactly when the predicate already has clauses in this text and is not discontiguous; the stored clause list never shares its backing array with the buffer; VM.Compile returns the text's or flush's error before the first write to the procedure table (a failed load defines nothing).",
+         "Fragment: the per-term loop (VM.compile: parsing, expansion, directives) is trusted to leave the procedure table alone (the property's 'side-effect-free directives') and to keep the text's invariants; the commit loop over the map, multifile merging, initialization goals, include/ensure_loaded are not decided.",
+         "contract-based deductive verification: WP over go/ssa with map and slice-of-struct heap model; SMT", "DESIGN.md 5 C20"),
 }
 
 NA_REASON = {
